@@ -1036,17 +1036,28 @@ func (g *gen) loose(ox, oy int) {
 	}
 	for k := rng.Intn(4); k > 0; k-- {
 		var part []osm.NodeID
-		for i := rng.Intn(6); i > 0; i-- {
+		for i := rng.Intn(7); i > 0; i-- {
 			part = append(part, ids[rng.Intn(len(ids))])
 		}
-		if rng.Intn(3) == 0 && len(part) >= 3 {
-			part = append(part, part[0]) // closed: an area if the tags say so
-		}
-		if rng.Intn(5) == 0 {
+		tags := randTags(rng)
+		switch rng.Intn(6) {
+		case 0, 1: // closed: an area if the tags say so
+			if len(part) >= 3 {
+				part = append(part, part[0])
+			}
+		case 2: // closed on a node that is not in the data: the resolvable line is open
+			if len(part) >= 2 {
+				part = append(append([]osm.NodeID{g.missing}, part...), g.missing)
+				g.missing++
+			}
+		case 3:
 			part = append(part, g.missing)
 			g.missing++
 		}
-		g.wayOf(part, randTags(rng), rng.Intn(4) == 0)
+		if len(part) > 3 && part[0] == part[len(part)-1] && rng.Intn(2) == 0 {
+			tags = append(tags, osm.Tag{Key: "area", Value: "yes"})
+		}
+		g.wayOf(part, tags, rng.Intn(4) == 0)
 	}
 	if rng.Intn(3) == 0 {
 		var ms osm.Members
@@ -1204,6 +1215,11 @@ func corpus() []*osm.OSM {
 	o.Nodes[1].Tags = tagsOf("source", "x", "amenity", "cafe")
 	o.Nodes[4].Version = 0
 	out = append(out, o)
+	// an area way closed on a node that is missing from the data: the ring must still be closed
+	out = append(out, &osm.OSM{
+		Nodes: nodesAt([3]int{1, 1, 1}, [3]int{2, 5, 1}, [3]int{3, 5, 5}, [3]int{4, 1, 5}),
+		Ways:  osm.Ways{wayIDs(1, tagsOf("area", "yes"), 901, 1, 4, 3, 2, 901), wayIDs(2, tagsOf("building", "yes"), 1, 2, 3, 1)},
+	})
 	return out
 }
 
